@@ -128,3 +128,13 @@ chk("C10", "exploration",
     "Trust as C02. Compile failures that are consequences of recorded C01/C07 findings (packed vs align, opaque types and derives) are counted inconclusive.",
     "runtime monitoring: differential C<->Rust probes + inventory predicates under blocklist/opaque selections",
     "DESIGN.md §4 C10")
+
+chk("C06", "exploration",
+    "Generated C type graphs x 8 targets (5 Linux architectures, 2 windows-msvc, wasm32) x both assertion forms (const block / #[test] "
+    "functions) x namespaces, plus C++ template instantiations used as fields. vf-inv extracts every assertion (type, kind, field, "
+    "number); completeness is checked against the generator's own record model (size + alignment + one offset per named non-bit-field "
+    "member, opaque records size + alignment, instantiations size + alignment), correctness against a constant table compiled by "
+    "`clang --target=T -S -emit-llvm`, and --no-layout-tests must remove exactly the assertion items.",
+    "clang --target defines the numbers; no Rust is compiled for non-host targets (assertion evaluation on the host is C01/C02).",
+    "runtime monitoring: cross-target differential of asserted numbers vs clang constant tables + model-driven completeness",
+    "DESIGN.md §4 C06")
